@@ -457,7 +457,7 @@ func c20Replay(raw json.RawMessage) string {
 }
 
 func c20Faults(c *mc.Check) {
-	f := c.Family("single-faults", "the real /upload handler driven in-process, for history prefixes {empty server, one committed upload, committed + failed} × uploads of 1–3 files × file stores {in-memory, local directory}: a single fault at EVERY position — (a) the k-th file-store operation fails, for every k over create / each write / close of each file (close failing before or after the data reached the store); (b) the request body cut at every byte offset (quick tier: every offset within 3 bytes of a part boundary and every 7th byte); (c) a file without benchmark lines at each position; (d) an unexpected form field (abort, x) at each position; (e) a file whose labels collide with name-derived labels (insertion fails at commit); plus the fault-free upload. Oracle, differential against the state before the upload: on failure queries and listings are byte-identical to before, earlier stored files unchanged, the file being written at the failure is absent from the store; on success every record and file is visible; afterwards a fresh upload succeeds with a never-seen, larger ID, all its records queryable and its file stored once with the metadata header; non-trivial = runs with a fault", c20Replay)
+	f := c.Family("single-faults", "the real /upload handler driven in-process, for history prefixes {empty server, one committed upload, committed + failed} × uploads of 1–3 files × file stores {in-memory, local directory}: a single fault at EVERY position — (a) the k-th file-store operation fails, for every k over create / each write / close of each file (close failing before or after the data reached the store); (b) the request body cut at every byte offset (quick tier: every offset from 3 bytes before the end of a part to 3 bytes after the delimiter line that follows it, and every 7th byte); (c) a file without benchmark lines at each position; (d) an unexpected form field (abort, x) at each position; (e) a file whose labels collide with name-derived labels (insertion fails at commit); plus the fault-free upload. Oracle, differential against the state before the upload: on failure queries and listings are byte-identical to before, earlier stored files unchanged, the file being written at the failure is absent from the store; on success every record and file is visible; afterwards a fresh upload succeeds with a never-seen, larger ID, all its records queryable and its file stored once with the metadata header; non-trivial = runs with a fault", c20Replay)
 	if c.Replaying() {
 		return
 	}
@@ -509,7 +509,9 @@ func c20Faults(c *mc.Check) {
 				for i := 1; i <= len(parts); i++ {
 					var n countWriter
 					mwPostN(parts, i, &n)
-					for d := -3; d <= 3; d++ {
+					// from 3 bytes before the end of the part to 3 bytes after the whole delimiter line that
+					// follows it (CR LF "--" boundary, then CR LF or "--" CR LF): every byte of the line
+					for d := -3; d <= len("\r\n--"+vBoundary+"--\r\n")+3; d++ {
 						bounds[int(n)+d] = true
 					}
 				}
